@@ -5,6 +5,7 @@
 -/
 import Frost.Driver.Ops
 import Frost.Model.Wire
+import Frost.Model.Resume
 
 namespace Frost.Driver
 open Frost Frost.Wire
@@ -111,6 +112,75 @@ def runWireOp (S : Suite F E) (hdr : Bytes) (op : String) (a : Args) : String :=
     | "de", "dkg2secret" => do
       let b ← arg a "b" parseHex
       pure (fmtDe (fun p => "v=" ++ fmtSp2 C p) (deserialize (decRound2Secret S) b))
+    | "resume", _ => do
+      let step ← a.get "step"
+      let fmt ← a.get "fmt"
+      if fmt ≠ "bin" then none
+      else
+      let by' := fun (k : String) => arg a k parseHex
+      let r1 := fun (_ : Unit) => (arg a "r1" (pRecs (pR1 C))).map (SMap.ofList lt)
+      let r2 := fun (_ : Unit) => (arg a "r2" (pRecs (pFF C))).map (SMap.ofList lt)
+      match step with
+      | "keypkg" => do
+        let ss ← by' "ss"
+        pure (fmtOut C (fun kp => "kp=" ++ fmtKp C kp) (Resume.keyPackage S hdr ss))
+      | "sign" => do
+        let n ← by' "nonces"
+        let kp ← by' "kp"
+        match a.get "pkg" with
+        | some _ => do
+          let pkg ← by' "pkg"
+          pure (fmtOut C (fun z => "z=" ++ C.sS z) (Resume.signPkg S hdr n kp pkg))
+        | none => do
+          let msg ← arg a "msg" parseHex
+          let cs ← (arg a "comms" (pRecs (pComm C))).map (SMap.ofList lt)
+          pure (fmtOut C (fun z => "z=" ++ C.sS z) (Resume.sign S hdr n kp ⟨cs, msg⟩))
+      | "aggregate" => do
+        let pkp ← by' "pkp"
+        let pkg ← by' "pkg"
+        let shares ← arg a "shares" (pRecs (pFF C))
+        pure (fmtOut C (fun sig => "sig=" ++ fmtSig C sig) (Resume.aggregate S hdr pkp pkg (SMap.ofList lt shares)))
+      | "dkg2" => do
+        let sp ← by' "sp"
+        let r1 ← r1 ()
+        pure (fmtOut C (fun (r : Round2Secret F E × List (F × F)) =>
+          "sp2=" ++ fmtSp2 C r.1 ++ " r2=" ++ fmtFF C r.2) (Resume.dkgPart2 S sp r1))
+      | "refresh_dkg2" => do
+        let sp ← by' "sp"
+        let r1 ← r1 ()
+        pure (fmtOut C (fun (r : Round2Secret F E × List (F × F)) =>
+          "sp2=" ++ fmtSp2 C r.1 ++ " r2=" ++ fmtFF C r.2) (Resume.refreshDkgPart2 S sp r1))
+      | "dkg3" => do
+        let sp ← by' "sp2"
+        let r1 ← r1 ()
+        let r2 ← r2 ()
+        pure (fmtOut C (fun (r : KeyPackage F E × PublicKeyPackage F E) =>
+          "kp=" ++ fmtKp C r.1 ++ " pkp=" ++ fmtPkp C r.2) (Resume.dkgPart3 S sp r1 r2))
+      | "refresh_dkg3" => do
+        let sp ← by' "sp2"
+        let pkp ← by' "pkp"
+        let kp ← by' "kp"
+        let r1 ← r1 ()
+        let r2 ← r2 ()
+        pure (fmtOut C (fun (r : KeyPackage F E × PublicKeyPackage F E) =>
+          "kp=" ++ fmtKp C r.1 ++ " pkp=" ++ fmtPkp C r.2) (Resume.refreshDkgShares S hdr sp pkp kp r1 r2))
+      | "refresh_share" => do
+        let ss ← by' "ss"
+        let kp ← by' "kp"
+        pure (fmtOut C (fun kp => "kp=" ++ fmtKp C kp) (Resume.refreshShare S hdr ss kp))
+      | "repair1" => do
+        let kp ← by' "kp"
+        let helpers ← arg a "helpers" (pList C.pS)
+        let tape ← arg a "tape" parseHex
+        let p ← arg a "participant" C.pS
+        pure (fmtOut C (fun (r : List (F × F) × Tape) => "deltas=" ++ fmtFF C r.1 ++ used tape r.2)
+          (Resume.repairPart1 S hdr kp helpers tape p))
+      | "repair3" => do
+        let pkp ← by' "pkp"
+        let ss ← arg a "sigmas" (pList C.pS)
+        let id ← arg a "id" C.pS
+        pure (fmtOut C (fun kp => "kp=" ++ fmtKp C kp) (Resume.repairPart3 S hdr pkp ss id))
+      | _ => none
     | "prim", _ => do
       let b ← arg a "b" parseHex
       let sc := fun (o : Outcome F F) => fmtOut C (fun s => "re=" ++ toHex (B.encScalar s)) o
